@@ -42,8 +42,22 @@ class SysInterp(Interp):
         self.flow_class = {}    # flow leaf name -> 'ok' | 'neg' | 'nan'
         self.undecided = []
         self.magnitude_orders = 0
+        self.method_hooks["FlodymArray.items_where"] = self._items_where
         self.stale = set()      # leaf names of value arrays that have been replaced since (history cases)
         self.stale_used = []    # tolerances that were built from replaced values
+
+    def _items_where(self, interp, args, kwargs):
+        """FlodymArray.items_where(condition) in the class domain: the rows of the entries meeting the condition.  Which entries
+        these are is not represented: one representative row when the condition holds somewhere, none otherwise.  An array
+        without dimensions has no rows at all (np.argwhere of a 0-d array yields index tuples of length 0)."""
+        arr, cond = args[0], (args[1] if len(args) > 1 else kwargs["condition"])
+        v = arr.f["values"]
+        mask = self.call(cond, [v], {})
+        dims = arr.f["dims"].f["dim_list"]
+        if not dims:
+            return []
+        holds = self.truth(NP.reduce_all(mask, "any")) if isinstance(mask, AArr) else self.truth(mask)
+        return [tuple(d.f["items"][0] for d in dims)] if holds else []
 
     # ---- np.finfo(...).eps
     def np_attr(self, name, node):
@@ -273,6 +287,7 @@ GRAPHS = [
     (["sysenv", "use"], [("sysenv", "use", "ta"), ("use", "sysenv", "at")], [("use", "tb")]),
     (["sysenv"], [("sysenv", "sysenv", "t")], []),
     (["sysenv", "use", "reuse"], [("sysenv", "use", "ab"), ("use", "reuse", "ba"), ("reuse", "sysenv", "ab")], []),
+    (["sysenv", "use"], [("sysenv", "use", ""), ("use", "sysenv", "t"), ("use", "sysenv", "")], []),       # flows without any dimension
 ]
 
 
@@ -694,7 +709,7 @@ def run(prog, rep):
         allp = list(itertools.product(("ok", "bad", "nan"), repeat=n))
         for chunk in [allp[i::4] for i in range(4)]:
             jobs.append((gi, chunk, "balance"))
-    graphs_f = [0, 1, 3] if rep.tier == "quick" else list(range(len(GRAPHS)))
+    graphs_f = [0, 1, 3, 8] if rep.tier == "quick" else list(range(len(GRAPHS)))
     for gi in graphs_f:
         n = len(GRAPHS[gi][1])
         allp = list(itertools.product(("ok", "tiny", "neg", "nan"), repeat=min(n, 3)))
